@@ -40,6 +40,10 @@ CLAIMS = {
    text="Static decision of the JS layout clauses against rustc's own wasm32-unknown-unknown layouts (obtained by type-checking a #![no_core] probe crate with -Zprint-type-sizes, nothing executed): the primitive size/align table (17 cells, plus host==wasm32 for every Layout::new::<T>() the tool evaluates on the host), enum/pointer/slice cells, the DiplomatOption (size, align) formula evaluated as an extracted closed-form term for every primitive/slice/enum payload, the padding and trailing-padding formulas of struct_field_info evaluated exhaustively on a 5x65 (align, offset) grid plus the statement order offset-after-padding-before-size, the typed-array table, the runtime's pointer/flag/discriminant reads and option flag position, and the documented legacy-ABI padding threshold.",
    note="Does not decide struct_field_info's output for every field order nor the bytes written for all values (algorithm/behaviour); the formulas and tables it is built from are decided. Host must be a 64-bit little-endian target (stated in evidence).",
    technique="decision tables + rustc wasm32 layout oracle + extracted-formula evaluation on exhaustive grids"),
+ "C05": dict(
+   text="Static decision of the gate's accept/reject behaviour by abstract interpretation: the typed HIR trees of lower_type, lower_out_type, lower_return_type, lower_callback_param, the struct/out-struct field loops (including TypeName::is_ffi_safe and the position-specific TyPosition::build_* impls) are interpreted over a finite abstract domain of type shapes (constructor trees of ast::TypeName x kind of the named type x spelling x lifetime class), exploring every path of the loop-free match/if trees, for 5 positions and 5 backend support profiles; the resulting verdict table (accept / reject-with-error / panic) is compared cell by cell with spec/gate.json, which was written from the statement and the book, not from the code. Also: no silent rejects, error context set before lowering, struct/out-struct sibling agreement (found the missing FFI-safety check on out-struct fields, repaired by a fix: commit), validation on the accept path covering Ok and Err payloads (decision table of with_contained_types), write only as last parameter, and the documented is_ffi_safe table.",
+   note="The shape domain is finite and chosen by the spec (54 shapes); unknown sub-expressions are over-approximated by exploring both branches; lifetime-bound validation itself (validate_ty_in_method's arithmetic) is not decided here.",
+   technique="abstract interpretation of the lowering functions over a finite shape domain + spec table comparison"),
 }
 NOT_YET = "rule module not built yet in this round (see DESIGN.md section 4 for the planned static rules)"
 
